@@ -70,3 +70,47 @@ PROPS["C01"] = dict(
         sim("^TestVerifC01History$", 300, 1500, files=["sim*.go", "c01*.go"]),
     ],
 )
+
+PROPS["C03"] = dict(
+    level="fault_enumeration",
+    rule=("rapid-generated scenario (0-3 clean pre-rounds ending near a tile boundary, optionally ending 'lock ahead of storage'; pool of 0, 1, tile-filling, "
+          "multi-tile or small size); the round is run fault-free to learn its operation trace, then a crash is injected at EVERY operation (in-flight operation "
+          "applied / not applied) and for subsets of the parallel tile batch (all 2^m masks when m<=6, else boundary+sampled masks); for every crashed state the "
+          "recovery (LoadLog) is swept the same way (quick: up to 10 evenly spaced points per state, thorough: all) with sampled repeated crashes; after the last crash a healthy "
+          "restart, full storage audit at the lock checkpoint, acknowledgement check and one further round must succeed. evaluation = one crash path; "
+          "non-trivial = crash strictly inside a round with a non-empty pool, or inside recovery; distinct = hash of scenario+crash path"),
+    assumptions=["in-flight operations of a crashed process take effect at the crash instant or never (no zombie writes)",
+                 "the cache database of a crashed process is rolled back to the crash instant"],
+    technique="exhaustive crash-point enumeration over generated rounds on a fault-injecting simulator, independent RFC 6962 audit as oracle",
+    units=[
+        sim("^TestVerifC03CrashSweep$", 3, 30, qs=4, files=["sim*.go", "c03*.go"]),
+    ],
+)
+
+PROPS["C04"] = dict(
+    level="exploration",
+    rule=("rapid-generated histories (as C01, monotone clock) over all entry shapes (certificate/precertificate x parseable/unparseable x 0..4 issuers shared and fresh, "
+          "1-byte and 64 KiB certificates), pool sizes steered across tile boundaries, with storage/lock faults and crashes; at the instant EVERY checkpoint upload takes effect the "
+          "whole storage is audited against an independent rendering (byte-exact hash tiles and data tiles, names tiles as JSON values vs crypto/x509, issuers, leaf index/timestamp), "
+          "every Upload is checked write-once, every Discard must target staging/, issuers must be stored when an entry is admitted; "
+          "non-trivial = >=2 publications after creation incl. one right after a partial->full tile transition, with >=1 precertificate and >=1 entry with issuers; distinct = history descriptor hash"),
+    assumptions=["names-tile lines are required only for certificates that crypto/x509 parses (what the code does; the public API cannot admit others)"],
+    technique="stateful property-based testing with an invariant audited after every storage operation against an independent Static-CT renderer",
+    units=[
+        sim("^TestVerifC04Storage$", 120, 1000, files=["sim*.go", "c04*.go"]),
+    ],
+)
+
+PROPS["C02"] = dict(
+    level="fault_enumeration",
+    rule=("rapid-generated histories with submissions before the round and inline at generated yield points of the round (new entries, duplicates of entries being sequenced, "
+          "of acknowledged entries, of other inline submissions), 0-3 fault directives per round, process kills right after acknowledgements with the cache kept, rolled back to "
+          "before the round or to an older snapshot; every acknowledgement is checked against storage at the instant it is observed (release detection at every storage/lock operation) "
+          "and against the committed tree after every later round and reload; non-trivial = an acknowledgement in a round that also had a fired fault or inline submission, or a kill after an acknowledgement; "
+          "distinct = history descriptor hash"),
+    assumptions=["releases are observed at storage/lock-operation granularity (harness-owned schedule)", "SCT signature correctness over real chains is covered by the HTTP-level unit and by C09"],
+    technique="stateful property-based testing with harness-owned scheduling of concurrent submitters on a fault-injecting simulator",
+    units=[
+        sim("^TestVerifC02Acks$", 250, 1200, files=["sim*.go", "c02*.go"]),
+    ],
+)
